@@ -69,6 +69,7 @@ type NodeRT struct {
 	DrainPoints []DrainPoint // partial drains of a stalled reader, made at quiescent points
 	// SelfCloseAt > 0: the monitor's own handler calls Close() from inside its
 	// SelfCloseAt-th callback (the "watch until X, then stop" pattern)
+	NoInit      bool // the monitor's handler registers no OnInitialize
 	SelfCloseAt int
 	CbAct       string // what that callback does: close-self (default), close-parent, close-root, list, subscribe
 	selfClosed  bool
@@ -106,6 +107,7 @@ type H struct {
 	Overflow         bool
 	ExpectNoOverflow bool
 	ShareHB          bool
+	NextMonitorNoInit bool // the next monitor made gets a handler without OnInitialize
 	hb               kcache.HandlerBuilder
 	// OnCbAct is told about an API call a monitor callback is about to make
 	OnCbAct func(n *NodeRT, act string)
@@ -383,6 +385,7 @@ func (h *H) MakeNode(parent *NodeRT, kind string, f FilterSpec, reader string) (
 		n.Filter = FilterSpec{Op: "all"}
 	case "monitor":
 		rp := &recPub{Publisher: pub}
+		n.NoInit, h.NextMonitorNoInit = h.NextMonitorNoInit, false
 		n.Mon, err = kcache.NewMonitor(rp, h.handler(n))
 		n.MonSub = rp.last // the monitor's private subscription (to attribute buffer overflows to it)
 	default:
@@ -681,6 +684,11 @@ func (h *H) handler(n *NodeRT) kcache.Handler {
 			h.hb = kcache.BuildHandler()
 		}
 		hb = h.hb
+	}
+	if n.NoInit {
+		// a "changes only" handler: no OnInitialize is registered at all
+		// (a reused builder is reset explicitly, as a user would have to)
+		return hb.OnInitialize(nil).OnCreate(one("create")).OnUpdate(one("update")).OnDelete(one("delete")).Create()
 	}
 	return hb.
 		OnInitialize(func(objs []metav1.Object) {
